@@ -56,6 +56,15 @@ SPECS = {
         search=False,
         explanation="exhaustive over scripts of Next/Scan/Err/Close up to the length bound x producers; every call under a watchdog; results compared with the model; goals after Close, goroutines and interleaved iterations checked directly",
     ),
+    "C15": dict(
+        level="proof", props_deps=["Proofs/Scan.v", "Gen/Scan_gen.v"], model_deps=["Model/ScanCheck.v"],
+        trusted=COMMON_TRUSTED + ["tools/go2coq scan: syntactic extraction of case clauses, range guards and conversions from convertAssign*",
+                                  "reflect-based dispatch (struct fields, maps, slices, interface{}) is observed, not modelled"],
+        assumptions=["the placeholder half (a Go value behaves like the literal denoting it) is evaluated on the implementation only: the reader is not modelled",
+                     "float32 destinations are outside the property's list"],
+        search=False,
+        explanation="theorems over the numeric conversions regenerated from solutions.go on this run; every boundary integer into every destination compared with the model; placeholders compared with the structure of the Go value and with the literal",
+    ),
     "C03": dict(
         level="proof", props_deps=["Proofs/Promise.v", "Proofs/Trampoline.v"], model_deps=ENGINE_MODEL_DEPS, trusted=ENGINE_TRUSTED,
         assumptions=["cut placements outside the property's quantifier (a cut nested in a non-top-level disjunction, in a then/else branch or under a left-nested conjunction) are not generated"],
